@@ -20,7 +20,7 @@ instance : Inhabited PNode := ⟨.empty⟩
 
 def maxPathLength : Nat := 136     -- extension.go:18  (limits.MaxStorageKeyLen + 4) * 2
 def maxKeyLength : Nat := 68       -- extension.go:22
-def maxValueLength : Nat := 65539  -- leaf.go:13  3 + limits.MaxStorageValueLen + 1
+def maxValueLength : Nat := 131074 -- leaf.go:18  3 + stackitem.MaxSize + 1 (7a41699: what a native contract can store)
 
 /-- decode `n` consecutive nodes with decoder `dec`. -/
 def decodeKids (dec : Bytes → Option (PNode × Bytes)) : Nat → Bytes → Option (List PNode × Bytes)
